@@ -68,6 +68,11 @@ func OpSet(o N, p string, e N) N {
 }
 func Incr(o N, p string) N { return N{"inc(" + o.SX + "," + p + ")", "(" + o.JS + "." + p + "++)"} }
 
+// FnCtor is Function("<body>") for a function without name and parameters.
+func FnCtor(f Fn) N {
+	return N{"fnc(" + Fn{Vars: f.Vars, Decls: f.Decls, Body: f.Body}.Expr().SX + ")", "Function(" + strconv.Quote(bodyJS(f.Vars, f.Decls, f.Body, 0)) + ")"}
+}
+
 // ProtoOf is Object.getPrototypeOf(e); Regex is the literal /x/.
 func ProtoOf(e N) N { return N{"pro(" + e.SX + ")", "Object.getPrototypeOf(" + e.JS + ")"} }
 func Regex() N      { return N{"rgx", "/x/"} }
